@@ -374,7 +374,7 @@ def parse_module(text):
                     first = False
                     # join multi-line instructions
                     if st.startswith('switch') or ' switch ' in st:
-                        while not st.rstrip().endswith(']'):
+                        while st.count('[') > st.count(']'):
                             st += ' ' + lines[i].strip(); i += 1
                     if re.search(r'\binvoke\b', st):
                         while 'unwind label' not in st:
@@ -768,8 +768,11 @@ class FE:
         s.blocks = {b.label: b for b in f.blocks}
         s.parsed = {}     # label -> list of parsed instrs
         s.tmpc = 0
+        s.conc = bool(getattr(em.o, 'conc', False)) and f.name in getattr(em, 'yielding', ())
+        s.nyield = 0
+        s.frame_extra = []   # extra frame fields (allocas, call-site function pointers)
 
-    def loc(s, name): return 'v_' + san(name)
+    def loc(s, name): return ('f_->v_' if s.conc else 'v_') + san(name)
     def V(s, t, v): return s.em.val(t, v, s.loc)
     def cty(s, t): return s.em.cty(t)
     def res(s, t): return s.em.res(t)
@@ -1062,6 +1065,7 @@ class FE:
         s.parse_all()
         em = s.em
         out = s.lines
+        if s.conc: return s.emit_conc()
         s.bidx = {b.label: i for i, b in enumerate(s.f.blocks)}
         nm = s.f.name[1:].strip('"')
         s.disp = False
@@ -1093,6 +1097,41 @@ class FE:
             decl.append('  %s %s;' % (s.cty(t), s.loc(nm)))
         return decl + s.decls + ['  ' + l for l in out]
 
+    # ---- lazy sequentialisation (DESIGN 1.3): a yielding function is a resumable step function over a static per-thread frame
+    def yield_point(s, pend):
+        """publish the pending visible operation, return to the scheduler, resume here when the thread is scheduled again"""
+        s.nyield += 1; k = s.nyield
+        s.lines.append('%s f_->pc_ = %d; return 0; R_%d: ;' % (pend, k, k))
+
+    def frame_name(s, fname=None):
+        return 'FR_' + san(fname or s.f.name)
+
+    def emit_conc(s):
+        em = s.em; out = s.lines
+        s.disp = False
+        s.irreducible()
+        blocks = [s.blocks[l] for l in s.rpo]
+        for b in blocks:
+            out.append('%s: ;' % s.lab(b.label))
+            for ins in s.parsed[b.label]:
+                s.emit_ins(b, ins)
+        fields = ['uint32_t pc_;']
+        for (t, nm) in s.f.params:
+            em.need_complete(t); fields.append('%s v_%s;' % (s.cty(t), san(nm)))
+        pnames = set(nm for (_, nm) in s.f.params)
+        for nm, t in s.types.items():
+            if nm in pnames or t is None: continue
+            em.need_complete(t); fields.append('%s v_%s;' % (s.cty(t), san(nm)))
+        if not isinstance(s.f.ret, TVoid):
+            em.need_complete(s.f.ret); fields.append('%s ret_;' % s.cty(s.f.ret))
+        fields += s.frame_extra
+        fr = s.frame_name()
+        em.frame_decls.append('struct %s { %s };\nstatic struct %s fr_%s[VERIF_NT];' % (fr, ' '.join(fields), fr, san(s.f.name)))
+        head = ['  struct %s* f_ = &fr_%s[verif_cur];' % (fr, san(s.f.name)), '  switch (f_->pc_) { case 0: break;']
+        for k in range(1, s.nyield + 1): head.append('  case %d: goto R_%d;' % (k, k))
+        head.append('  default: __CPROVER_assume(0); }')
+        return head + s.decls + ['  ' + l for l in out]
+
     def zero(s, t):
         rt = s.res(t)
         if isinstance(rt, TVoid): return ''
@@ -1100,6 +1139,7 @@ class FE:
         return '(%s){0}' % s.cty(t)
 
     def ret_zero(s):
+        if s.conc: return 'return 1;'
         if isinstance(s.f.ret, TVoid): return 'return;'
         return 'return %s;' % s.zero(s.f.ret)
 
@@ -1155,7 +1195,12 @@ class FE:
         elif op == 'alloca':
             em.need_complete(ins['t'])
             an = 'a_' + san(ins['res'])
-            if ins['cnt'] is not None and not (isinstance(ins['cnt'][1], VInt) and ins['cnt'][1].v == 1):
+            if s.conc:
+                assert ins['cnt'] is None or isinstance(ins['cnt'][1], VInt), 'dynamic alloca in a yielding function'
+                k_ = 1 if ins['cnt'] is None else ins['cnt'][1].v
+                s.frame_extra.append('%s %s[%d];' % (s.cty(ins['t']), an, k_))
+                out.append('%s = &f_->%s[0];' % (r, an))
+            elif ins['cnt'] is not None and not (isinstance(ins['cnt'][1], VInt) and ins['cnt'][1].v == 1):
                 cv = ins['cnt'][1]
                 if isinstance(cv, VInt):
                     s.decls.append('  %s %s[%d];' % (s.cty(ins['t']), an, cv.v))
@@ -1167,11 +1212,12 @@ class FE:
                 out.append('%s = &%s;' % (r, an))
         elif op == 'load':
             em.need_complete(ins['t'])
-            if ins.get('atomic') and em.o.conc: out.append('verif_atomic_pre(%s, 0);' % s.V(ins['pt'], ins['pv']))
+            if ins.get('atomic') and s.conc and em.o.yield_atomics: s.yield_point('verif_pend_run();')
             out.append('%s = *%s;' % (r, s.V(ins['pt'], ins['pv'])))
         elif op == 'store':
-            if ins.get('atomic') and em.o.conc: out.append('verif_atomic_pre(%s, 1);' % s.V(ins['pt'], ins['pv']))
+            if ins.get('atomic') and s.conc and em.o.yield_atomics: s.yield_point('verif_pend_run();')
             out.append('*%s = %s;' % (s.V(ins['pt'], ins['pv']), s.V(ins['t'], ins['v'])))
+            if ins.get('atomic') and em.o.conc: out.append('verif_atomic_epoch++;')
         elif op == 'getelementptr':
             e, cur = em.gep_expr(ins['bt'], s.V(ins['pt'], ins['pv']), ins['idx'], s.loc)
             out.append('%s = %s;' % (r, e))
@@ -1180,7 +1226,10 @@ class FE:
         elif op in ('call', 'invoke'):
             s.emit_call(b, ins, r)
         elif op == 'ret':
-            if ins['v'] is None: out.append('return;')
+            if s.conc:
+                if ins['v'] is not None: out.append('f_->ret_ = %s;' % s.V(ins['t'], ins['v']))
+                out.append('f_->pc_ = 0; return 1;')
+            elif ins['v'] is None: out.append('return;')
             else: out.append('return %s;' % s.V(ins['t'], ins['v']))
         elif op == 'br':
             if ins['cond'] is None:
@@ -1253,7 +1302,7 @@ class FE:
             out.append('verif_exc = 1; %s' % s.ret_zero())
         elif op == 'atomicrmw':
             pv = s.V(ins['pt'], ins['pv']); v = s.V(ins['t'], ins['v'])
-            if em.o.conc: out.append('verif_atomic_pre(%s, 1);' % pv)
+            if s.conc and em.o.yield_atomics: s.yield_point('verif_pend_run();')
             out.append('%s = *%s;' % (r, pv))
             rop = ins['rop']
             if rop == 'xchg': nv = v
@@ -1263,14 +1312,14 @@ class FE:
                 nv = '(%s ? %s : %s)' % (em.icmp(pr, ins['t'], r, v), r, v)
             else: raise NotImplementedError(rop)
             out.append('*%s = %s;' % (pv, nv))
-            if em.o.conc: out.append('verif_atomic_post(%s);' % pv)
+            if em.o.conc: out.append('verif_atomic_epoch++;')
         elif op == 'cmpxchg':
             pv = s.V(ins['pt'], ins['pv'])
-            if em.o.conc: out.append('verif_atomic_pre(%s, 1);' % pv)
+            if s.conc and em.o.yield_atomics: s.yield_point('verif_pend_run();')
             out.append('%s.f0 = *%s; %s.f1 = (%s.f0 == %s); if (%s.f1) *%s = %s;' % (r, pv, r, r, s.V(ins['t'], ins['cmp']), r, pv, s.V(ins['t'], ins['new'])))
-            if em.o.conc: out.append('verif_atomic_post(%s);' % pv)
+            if em.o.conc: out.append('verif_atomic_epoch++;')
         elif op == 'fence':
-            if em.o.conc: out.append('verif_fence();')
+            pass
         else:
             raise NotImplementedError(op)
 
@@ -1415,12 +1464,16 @@ class FE:
             else:
                 raise NotImplementedError('inline asm %r' % asm_s)
             done = True
+        elif isinstance(callee, VGlobal) and s.conc and s.emit_conc_call(ins, callee, A, r):
+            done = True
         elif isinstance(callee, VGlobal):
             n = callee.name[1:]
             if n.startswith('"'): n = n[1:-1]
             h = s.intrinsic(n, ins, A, r)
             if h is not None:
                 may_throw = h; done = True
+        if not done and s.conc and not isinstance(callee, (VGlobal, tuple)):
+            done = s.emit_conc_call(ins, callee, A, r)
         if not done:
             if isinstance(callee, VGlobal) and callee.name in s.m.funcs:
                 fn = em.fname(callee.name)
@@ -1443,6 +1496,60 @@ class FE:
                 out.append(s.edge(b.label, ins['normal']))
         elif may_throw:
             out.append('if (verif_exc) %s' % s.ret_zero())
+
+    def conc_start(s, gname, A):
+        """initialise the callee's frame for the current thread"""
+        g = s.m.funcs[gname]; out = s.lines
+        for (t, nm), a in zip(g.params, A):
+            out.append('fr_%s[verif_cur].v_%s = %s;' % (san(gname), san(nm), a))
+        out.append('fr_%s[verif_cur].pc_ = 0;' % san(gname))
+
+    def emit_conc_call(s, ins, callee, A, r):
+        """calls inside a yielding function: scheduler primitives, direct and indirect calls of yielding functions. Returns True if handled."""
+        em = s.em; out = s.lines
+        if isinstance(callee, VGlobal):
+            n = callee.name[1:].strip('"')
+            if n == 'verif_mutex_lock':
+                s.yield_point('verif_pend_lock((void*)%s);' % A[0]); out.append('verif_do_lock((void*)%s);' % A[0]); return True
+            if n == 'verif_cv_wait':
+                out.append('verif_do_unlock((void*)%s); verif_cv_enqueue((void*)%s);' % (A[1], A[0]))
+                s.yield_point('verif_pend_waitcv((void*)%s);' % A[0])
+                s.yield_point('verif_pend_lock((void*)%s);' % A[1]); out.append('verif_do_lock((void*)%s);' % A[1]); return True
+            if n == 'verif_thread_join':
+                s.yield_point('verif_pend_join(%s);' % A[0]); return True
+            if n == 'verif_yield':
+                s.yield_point('verif_pend_run();'); return True
+            if callee.name in em.yielding:
+                g = s.m.funcs[callee.name]
+                s.conc_start(callee.name, A)
+                s.nyield += 1; k = s.nyield
+                out.append('R_%d: if (!S_%s()) { f_->pc_ = %d; return 0; }' % (k, san(callee.name), k))
+                if r: out.append('%s = fr_%s[verif_cur].ret_;' % (r, san(callee.name)))
+                return True
+            return False
+        # indirect call: dispatch over the address-taken yielding functions of the same type
+        ft = ins['ft']
+        if not isinstance(ft, TFunc): ft = TFunc(ins['rett'], [a[0] for a in ins['args'] if a is not None], False)
+        cands = [g for g in em.addr_taken_yielding if tkey(TFunc(s.m.funcs[g].ret, [t for (t, _) in s.m.funcs[g].params], s.m.funcs[g].va)) == tkey(ft)]
+        if not cands: return False
+        s.nyield += 1; k = s.nyield
+        fpt = em.fptr_ty(ft); cv = s.V(TPtr(ft), callee)
+        fld = 'cs%d_fn' % k; s.frame_extra.append('void* %s;' % fld)
+        out.append('f_->%s = (void*)%s;' % (fld, cv))
+        first = True
+        for g in cands:
+            out.append('%sif (f_->%s == (void*)&%s) {' % ('' if first else 'else ', fld, em.fname(g))); first = False
+            s.conc_start(g, A); out.append('}')
+        call = '((%s)f_->%s)(%s)' % (fpt, fld, ', '.join(A))
+        out.append('else { %s%s; goto N_%d; }' % ((r + ' = ') if r else '', call, k))
+        out.append('R_%d: ;' % k)
+        first = True
+        for g in cands:
+            out.append('%sif (f_->%s == (void*)&%s) { if (!S_%s()) { f_->pc_ = %d; return 0; } %s }' %
+                       ('' if first else 'else ', fld, em.fname(g), san(g), k, ('%s = fr_%s[verif_cur].ret_;' % (r, san(g))) if r else ''))
+            first = False
+        out.append('N_%d: ;' % k)
+        return True
 
     def intrinsic(s, n, ins, A, r):
         """returns None if not handled, else may_throw bool"""
@@ -1609,6 +1716,16 @@ class FE:
             out.append('%s%s(%s);' % (asg, n, ', '.join(A))); return False
         return None
 
+CONC_RT_DECLS = r'''
+/* ---- scheduler interface (engine/rt/sched.c is appended to this file) */
+#ifndef VERIF_NT
+#define VERIF_NT 4
+#endif
+extern uint32_t verif_cur; extern uint32_t verif_atomic_epoch;
+void verif_pend_lock(void* m); void verif_pend_waitcv(void* cv); void verif_pend_join(uint32_t id); void verif_pend_run(void);
+void verif_do_lock(void* m); void verif_do_unlock(void* m); void verif_cv_enqueue(void* cv);
+'''
+
 PRELUDE = r'''
 #include <stdint.h>
 #include <stddef.h>
@@ -1681,6 +1798,7 @@ def emit_module(m, opts):
     bodies = []
     protos = []
     keep = None
+    refre = re.compile(r'@"(?:[^"\\]|\\.)*"|@[-a-zA-Z$._0-9]+')
     if opts.entry:
         # reachability from entry points
         keep = set(); work = ['@' + e for e in opts.entry]
@@ -1703,6 +1821,45 @@ def emit_module(m, opts):
             for c_, p_ in EH_PARENTS.items():
                 if c_ in keep and p_ in m.globals and p_ not in keep: keep.add(p_); ch = True
     def kept(n): return keep is None or n in keep
+    em.yielding = set(); em.addr_taken_yielding = []; em.frame_decls = []
+    if getattr(opts, 'conc', False):
+        callre = re.compile(r'\b(?:call|invoke)\b[^@%]*?(?:\([^)]*\)\*? )?(@"(?:[^"\\]|\\.)*"|@[-a-zA-Z$._0-9]+)\(')
+        fn_txt = {n: '\n'.join(sum([b.ins for b in f.blocks], [])) for n, f in m.funcs.items() if not f.decl and kept(n)}
+        calls = {n: set(callre.findall(t)) for n, t in fn_txt.items()}
+        prim = ('@verif_mutex_lock', '@verif_cv_wait', '@verif_thread_join', '@verif_yield')
+        atom = re.compile(r'\batomicrmw\b|\bcmpxchg\b|\bload atomic\b|\bstore atomic\b')
+        allrefs = {n: set(refre.findall(t)) for n, t in fn_txt.items()}
+        gl_refs = set()
+        for g_ in m.raw_globals.values(): gl_refs |= set(refre.findall(g_))
+        def is_addr_taken(g):
+            if g in gl_refs: return True
+            for n, t in fn_txt.items():
+                if g in allrefs[n]:
+                    # referenced other than as a direct callee?
+                    if len(re.findall(re.escape(g) + r'(?![-a-zA-Z$._0-9"])', t)) > len(re.findall(r'\b(?:call|invoke)\b[^\n]*?' + re.escape(g) + r'\(', t)): return True
+            return False
+        indirect = {n: bool(re.search(r'\b(?:call|invoke)\b[^@\n]*?%[-a-zA-Z$._0-9"]+\(', t)) for n, t in fn_txt.items()}
+        ych = True
+        for n, t in fn_txt.items():
+            if any(p_ in calls[n] for p_ in prim) or (opts.yield_atomics and atom.search(t)): em.yielding.add(n)
+        while ych:
+            ych = False
+            taken = [g for g in em.yielding if is_addr_taken(g)]
+            for n in fn_txt:
+                if n in em.yielding: continue
+                if calls[n] & em.yielding or (indirect[n] and taken):
+                    em.yielding.add(n); ych = True
+        for nn in list(em.yielding):
+            if any(u in nn for u in opts.no_yield): em.yielding.discard(nn)
+        em.addr_taken_yielding = sorted(g for g in em.yielding if is_addr_taken(g))
+        # recursion among yielding functions is not supported (static frames)
+        for n in em.yielding:
+            seen = set(); work = [c for c in calls[n] if c in em.yielding]
+            while work:
+                c = work.pop()
+                if c == n: raise RuntimeError('recursive yielding function %s' % n)
+                if c in seen: continue
+                seen.add(c); work += [d for d in calls.get(c, ()) if d in em.yielding]
     # function prototypes
     for n in m.forder:
         f = m.funcs[n]
@@ -1729,7 +1886,11 @@ def emit_module(m, opts):
                 body = fe.emit()
             except Exception as e:
                 raise RuntimeError('in function %s: %s: %s' % (n, type(e).__name__, e))
-            bodies.append(sig + '\n{\n' + '\n'.join(body) + '\n}\n')
+            if fe.conc:
+                protos.append('static int S_%s(void);' % san(n))
+                bodies.append('static int S_%s(void)\n{\n' % san(n) + '\n'.join(body) + '\n}\n')
+            else:
+                bodies.append(sig + '\n{\n' + '\n'.join(body) + '\n}\n')
     # globals
     gdecl = []; gdef = []
     names = [g for g in m.gorder if kept(g)]
@@ -1768,9 +1929,28 @@ def emit_module(m, opts):
     out += ['struct verif_B%d { uint8_t b[%d]; };' % (k, k) for k in sorted(em.bytes_structs)]
     out += gdecl
     out += eh
+    if getattr(opts, 'conc', False):
+        out.append(CONC_RT_DECLS)
+        out += em.frame_decls
     out += protos
     out += gdef
     out += bodies
+    if getattr(opts, 'conc', False):
+        # thread entry dispatch: function pointer -> step function (thread entries take one pointer argument)
+        d1 = ['void verif_thread_init(void* fn, void* arg) {']; d2 = ['int verif_thread_step(void* fn, void* arg) {']
+        for g in em.addr_taken_yielding:
+            f = m.funcs[g]
+            if len(f.params) != 1 or not isinstance(em.res(f.params[0][0]), TPtr): continue
+            d1.append('  if (fn == (void*)&%s) { fr_%s[verif_cur].v_%s = (%s)arg; fr_%s[verif_cur].pc_ = 0; return; }' % (em.fname(g), san(g), san(f.params[0][1]), em.cty(f.params[0][0]), san(g)))
+            d2.append('  if (fn == (void*)&%s) return S_%s();' % (em.fname(g), san(g)))
+        d1.append('}')
+        d2.append('  ((void (*)(void*))fn)(arg); return 1; }   /* non-yielding thread body runs as one step */')
+        ent = '@' + opts.entry[0]
+        if ent in em.yielding:
+            d2.append('int verif_main_step(void) { return S_%s(); }' % san(ent))
+        else:
+            d2.append('int verif_main_step(void) { %s(); return 1; }' % em.fname(ent))
+        out += d1 + d2
     return '\n'.join(out) + '\n'
 
 def main():
@@ -1780,6 +1960,7 @@ def main():
     ap.add_argument('--gcc', action='store_true'); ap.add_argument('--conc', action='store_true'); ap.add_argument('--flex', action='store_true')
     ap.add_argument('--no-typed-malloc', action='store_true'); ap.add_argument('--alloc-cap', type=int, default=0)
     ap.add_argument('--unreachable', action='append', default=[])
+    ap.add_argument('--yield-atomics', action='store_true'); ap.add_argument('--no-yield', action='append', default=[])
     ap.add_argument('--dispatch', action='append'); ap.add_argument('--dispatch-threshold', type=int, default=8)
     o = ap.parse_args()
     text = open(o.input).read()
